@@ -17,7 +17,7 @@
 typedef int (*cb_t)(int);
 struct slot { pthread_t t; sem_t go, done, resume; int cmd; int arg; int result; cb_t fn[2];
               int alive; volatile int parked; };
-#define NSLOT 4
+#define NSLOT 8
 static struct slot S[NSLOT];
 
 #define CMD_EXIT   0
